@@ -183,7 +183,46 @@ def _master_subs(tier):
                 'events': [['presence_up', 0], ['none']]}
         subs.append((_name('master-apptraits',
                            ''.join(str(len(r)) for r in recs)), spec))
+    # the hourly Master.check_reboot ran; afterwards a leased instance is
+    # scheduled: it must not land on a server whose reboot has been requested
+    for delta in (1800, 5400, -10):
+        for recs in ([[], []], [[1], []]):
+            spec = {'level': 'master_reboot', 'nservers': 2,
+                    'regime_dems': [3, 3, 3, 3], 'valid_until_delta': delta,
+                    'servers': [{'memory': 8}, {'memory': 8}],
+                    'apps': [{'recorded': r, 'memory': 3} for r in recs]}
+            subs.append((_name('master-reboot_requested',
+                               'in%d' % delta if delta > 0 else 'expired',
+                               ''.join(str(len(r)) for r in recs)), spec))
     return subs
+
+
+def _master_reboot(S, spec):
+    import g2
+    W = g2.base_store(S, spec)
+    m = g2.new_master(W)
+    g2.start(W, m)
+    b = W.backend
+    b.seed('/reboots', None, 1)
+    # the reboot date of every server (what RebootBucket.add assigns)
+    for srv in m.servers.values():
+        srv.valid_until = g2.VT.now + spec['valid_until_delta']
+    m.check_reboot()
+    S.reach('check_reboot_ran')
+    before = {n: a.server for n, a in m.cell.apps.items()}
+    g2.apply_event(W, m, ['schedule', 2, {'lease': '10m'}])
+    g2.cycle(W, m)
+    for name, app in m.cell.apps.items():
+        if app.server and app.server != before.get(name) and app.lease:
+            S.reach('leased_instance_assigned')
+            S.check('C03:leased_instance_assigned_to_server_due_for_reboot',
+                    not b.exists('/reboots/' + app.server),
+                    {'app': name, 'server': app.server})
+            S.check('C03:lease_outlives_server',
+                    g2.VT.now + 600 < m.servers[app.server].valid_until,
+                    {'app': name, 'server': app.server})
+    S.reach('scheduled')
+    S.reach('master_level')
 
 
 def _master_harness(S, spec):
@@ -237,6 +276,8 @@ def budget(tier, name):
 def harness(S, spec):
     if spec.get('level') == 'master':
         return _master_harness(S, spec)
+    if spec.get('level') == 'master_reboot':
+        return _master_reboot(S, spec)
     W = g1.build(S, spec)
     g1.apply_event(W, tuple(spec['event']))
     states = g1.server_states(W)
